@@ -17,6 +17,7 @@ type exprT struct {
 	X  string  `json:"x,omitempty"`  // glob / call / callv: name; mcall: type
 	M  string  `json:"m,omitempty"`  // mcall: method
 	Op string  `json:"op,omitempty"` // bin: add | sub | mul
+	Conv bool  `json:"conv,omitempty"` // glob of a constant of a named type: rendered int(x)
 	A  *exprT  `json:"a,omitempty"`  // bin left, call argument, mcall receiver
 	B  *exprT  `json:"b,omitempty"`  // bin right, mcall argument
 }
@@ -35,8 +36,65 @@ type bodyT struct {
 	Ret   *exprT  `json:"ret"`
 }
 
-// itemT: K = var | closure | func | type | method | init | stmt | define
+// kexprT: a constant expression. K = num | iota | ref | bin
+type kexprT struct {
+	K  string  `json:"k"`
+	N  int64   `json:"n,omitempty"`
+	X  string  `json:"x,omitempty"`
+	Op string  `json:"op,omitempty"`
+	A  *kexprT `json:"a,omitempty"`
+	B  *kexprT `json:"b,omitempty"`
+}
+
+func (e *kexprT) sexp() string {
+	switch e.K {
+	case "num":
+		return common.L("num", fmt.Sprint(e.N))
+	case "iota":
+		return "iota"
+	case "ref":
+		return common.L("ref", common.Q(e.X))
+	case "bin":
+		return common.L("bin", e.Op, e.A.sexp(), e.B.sexp())
+	}
+	return "(bad)"
+}
+
+// src renders the expression; iota >= 0 replaces the identifier iota by that literal.
+func (e *kexprT) src(rn renamer, iota int) string {
+	switch e.K {
+	case "num":
+		if e.N < 0 {
+			return fmt.Sprintf("(%d)", e.N)
+		}
+		return fmt.Sprint(e.N)
+	case "iota":
+		if iota >= 0 {
+			return fmt.Sprint(iota)
+		}
+		return "iota"
+	case "ref":
+		return rn("var", e.X)
+	case "bin":
+		op := map[string]string{"add": "+", "sub": "-", "mul": "*"}[e.Op]
+		return "(" + e.A.src(rn, iota) + " " + op + " " + e.B.src(rn, iota) + ")"
+	}
+	return "BAD"
+}
+
+// itemT: K = const | var | closure | func | type | method | init | stmt | define
+//
+// A const declaration is a run of const items: one per spec, `Last` on the final one. `Paren`: the
+// declaration is written `const ( … )` (`Open` on its first spec); `Implicit`: the spec is written
+// without type and expression (it repeats the previous ones, KE holds the repeated expression);
+// `Typ`: "" (untyped), "int", or a named type.
 type itemT struct {
+	KE       *kexprT `json:"ke,omitempty"`
+	Last     bool    `json:"last,omitempty"`
+	Paren    bool    `json:"paren,omitempty"`
+	Open     bool    `json:"open,omitempty"`
+	Implicit bool    `json:"implicit,omitempty"`
+	Typ      string  `json:"typ,omitempty"`
 	K string `json:"k"`
 	X string `json:"x,omitempty"` // declared name (var, closure, func, type, define); method: type
 	M string `json:"m,omitempty"` // method name
@@ -96,6 +154,8 @@ func (b *bodyT) sexp() string {
 
 func (it *itemT) sexp() string {
 	switch it.K {
+	case "const":
+		return common.L("const", common.Q(it.X), it.KE.sexp(), common.B(it.Last))
 	case "var", "define":
 		return common.L(it.K, common.Q(it.X), it.E.sexp())
 	case "closure", "func":
@@ -139,6 +199,9 @@ func (e *exprT) src(rn renamer) string {
 	case "recv":
 		return "int(r)"
 	case "glob":
+		if e.Conv {
+			return "int(" + rn("var", e.X) + ")"
+		}
 		return rn("var", e.X)
 	case "bin":
 		op := map[string]string{"add": "+", "sub": "-", "mul": "*"}[e.Op]
@@ -186,6 +249,29 @@ func (b *bodyT) inner(rn renamer, withRet bool) string {
 // src renders one item as the text a user would type (one line).
 func (it *itemT) src(rn renamer) string {
 	switch it.K {
+	case "const":
+		spec := rn("var", it.X)
+		if !it.Implicit {
+			if it.Typ != "" {
+				t := it.Typ
+				if t != "int" {
+					t = rn("type", t)
+				}
+				spec += " " + t
+			}
+			spec += " = " + it.KE.src(rn, -1)
+		}
+		if !it.Paren {
+			return "const " + spec
+		}
+		s := "\t" + spec
+		if it.Open {
+			s = "const (\n" + s
+		}
+		if it.Last {
+			s += "\n)"
+		}
+		return s
 	case "var":
 		return "var " + rn("var", it.X) + " = " + it.E.src(rn)
 	case "define":
